@@ -8,10 +8,10 @@ Import ListNotations RecordSetNotations.
 Section D.
 Context (cs : amap pconf).
 
-Lemma P2all_state s o th i s0 s' : Rc cs s o -> Rd o -> P2all s o -> step_state s th i s0 = Some s' ->
+Lemma P2all_state s o th i s0 s' : Rc cs s o -> Ro o -> Rz s o -> P2all s o -> step_state s th i s0 = Some s' ->
   P2all s' (obs_step cs o (th, EState i s0)).
 Proof.
-  intros HRc HRd HP H. pose proof (wkeep_step cs o (th, EState i s0)) as Hwk.
+  intros HRc HRo HRz HP H. pose proof (wkeep_step cs o (th, EState i s0)) as Hwk.
   pose proof (obs_step_keep cs o th (EState i s0) eq_refl) as Hk.
   set (o' := obs_step cs o (th, EState i s0)) in *. clearbody o'.
   unfold step_state in H. destruct (get i (insts s)) as [x|] eqn:Ex; [|discriminate]. cbv zeta in H.
@@ -36,7 +36,9 @@ Proof.
         eapply P2_frame2; [apply (HP _ _ _ Ex Exo)|apply ikeep_refl|exact Ok|unfold set_stage; rewrite vis_of_set_stage, restarts_write_status; lia|exact Hwk|].
         intros _ Hl. destruct (pc x); discriminate.
       + eapply (P2all_status_others cs s o _ o' i x (nm x) SPending); eauto using ikeep_refl.
-        * left. destruct (pc x); try discriminate; reflexivity.
+        * left. match goal with Ea : at_stage s th i 0 = true |- _ =>
+            unfold at_stage in Ea; destruct (get i (stage s)) as [[t0 k0]|]; [|discriminate Ea];
+            apply andb_true_iff in Ea; destruct Ea as [_ Ea]; apply Nat.eqb_eq in Ea; subst k0; eauto end.
         * intros m. unfold set_stage. rewrite vis_of_set_stage. apply st_write_status.
         * intros m. unfold set_stage. rewrite vis_of_set_stage. apply restarts_write_status.
     - (* Running *)
@@ -60,8 +62,10 @@ Proof.
       + rewrite Ex in Hy'. cbn in Hy'. injection Hy' as <-. inst_i_tac HP Ex Hk i. all: unfold end_finish; state_fin Hwk Ev.
         intros c0 [[=]|[b0 Hb0]]. injection Hb0 as -> <-. destruct (Pgaveup c) as (A & B); [right; eauto|]. split; [exact A|].
         unfold GaveUp in *. cbn. autorewrite with sup. rewrite restarts_write_status, ?Ob. exact B.
+        intros s2 c0 [[=]|[b0 Hb0]]. injection Hb0 as <- <- _. apply (Ps1 s1 c). right. eauto.
       + eapply (P2all_status_others cs s o _ o' i x (nm x) s1); eauto using ikeep_refl.
-        * left. match goal with E : pc x = _ |- _ => rewrite E end. reflexivity.
+        * right. destruct (rc_inst _ _ _ HRc _ _ Ex) as (xo9 & Exo9 & _).
+          apply (p_s1 _ _ _ _ (HP _ _ _ Ex Exo9) s1 c). right. eexists. eassumption.
         * intros m. unfold set_pc, end_finish. autorewrite with sup. apply st_write_status.
         * intros m. unfold set_pc, end_finish. autorewrite with sup. apply restarts_write_status. }
   destruct (spc (get_thread s th)) eqn:Es; try (apply Hgen; exact H).
@@ -72,10 +76,14 @@ Proof.
     break_step H. subst s'. eapply P2all_frame; [exact HP| |exact Hk|exact Hwk]. sback_close.
 Qed.
 
-Lemma P2all_procend_entry s o th i s0 s' : Rc cs s o -> Rt s o -> P2all s o -> step_procend s th i s0 true = Some s' ->
+Ltac s1_tac :=
+  let Hc := fresh "Hc" in intros ? ? Hc; cbn in Hc; destruct Hc as [Hc|[? Hc]]; try discriminate Hc; inversion Hc; subst;
+  match goal with P : forall s1 c, _ \/ _ -> s1 <> SPending |- _ => eapply P; solve [left; reflexivity|right; eexists; reflexivity] end.
+
+Lemma P2all_procend_entry s o th i s0 s' : Rc cs s o -> Rt s o -> Rs s o -> P2all s o -> step_procend s th i s0 true = Some s' ->
   P2all s' (obs_step cs o (th, EProcEnd i s0)).
 Proof.
-  intros HRc HRt HP H. pose proof (wkeep_step cs o (th, EProcEnd i s0)) as Hwk.
+  intros HRc HRt HRs HP H. pose proof (wkeep_step cs o (th, EProcEnd i s0)) as Hwk.
   pose proof (procend_shape cs o th i s0) as Hshape.
   set (o' := obs_step cs o (th, EProcEnd i s0)) in *. clearbody o'.
   unfold step_procend in H. destruct (get i (insts s)) as [x|] eqn:Ex; [|discriminate]. cbv zeta in H.
@@ -83,7 +91,7 @@ Proof.
     by now rewrite (rc_th _ _ _ HRc).
   assert (Hsp : spc (get_thread s th) = SPend i -> o_stopreq (oi_get o i) = true) by (apply (rt_spend _ _ HRt)).
   break_step H; subst s'; split_andb; repeat match goal with Hq : i = ?k |- _ => subst k end;
-    comb_tac2 HP i Ex Hshape Hwk; comb_fin Hwk; try (gaveup_tac; fail).
+    comb_tac2 HP i Ex Hshape Hwk; comb_fin Hwk; try (gaveup_tac; fail); try (s1_tac; fail).
   - assert (Hsr : o_stopreq xo0 = true) by (rewrite <- (oi_get_some _ _ _ Exo); apply Hsp; reflexivity).
     intros Hc. exfalso. rewrite Pstop in Hc by assumption. discriminate.
   - assert (Hsr : o_stopreq xo0 = true) by (rewrite <- (oi_get_some _ _ _ Exo); apply Hsp; reflexivity).
